@@ -624,6 +624,14 @@ func (p *Proxy) handle(ctx *Context, conn net.Conn, brw *bufio.ReadWriter) error
 		return nil
 	}
 
+	// An HTTP/1.0 client does not understand chunked transfer coding: a response
+	// of unknown length is delimited by closing the connection instead.
+	if !req.ProtoAtLeast(1, 1) && len(res.TransferEncoding) > 0 {
+		res.TransferEncoding = nil
+		res.ContentLength = -1
+		res.Close = true
+	}
+
 	var closing error
 	if req.Close || res.Close || p.Closing() {
 		log.Debugf("martian: received close request: %v", req.RemoteAddr)
